@@ -1,10 +1,14 @@
 /-
   Props/C11.lean — C11: replace-family edits stay valid and keep surrounding content.
-  The fitting heuristics are tied relationally: on every run the Lean monitor `respects`
-  (PM/Monitor.lean) is evaluated on each step the real code emits; these theorems say what a true
-  monitor implies once the step applies — for every schema, independent of the heuristic.
-  Totality ("never raises") is NOT a theorem (it would need a model of the fitting algorithm with its
-  termination and assertion-freeness): it is decided by search only.  Helpers: Proofs/Respects.lean.
+  Two layers.  (1) Relational: the Lean monitor `respects` (PM/Monitor.lean) is evaluated on each step
+  the real code emits; the first theorems say what a true monitor implies once the step applies — for
+  every schema, independent of the heuristic.  (2) Exact: `replace_step` with the Fitter, the trivial
+  fit and `delete_range` are executable models (PM/Fitter.lean, PM/RangeOps.lean) tied exactly to the
+  real code; the later theorems prove the monitor's conjuncts about what the *model* emits
+  (`fit_range`, the text invariant, `fitter_respects`, the `delete_range` theorems).
+  Totality ("never raises") is NOT a theorem: the model has fuel and error outcomes, every Fitter
+  theorem assumes the run ends in `.ok`; termination and assertion-freeness of the real loops are
+  decided by search.  Helpers: Proofs/Respects.lean, RangeOps.lean, Fitter.lean, FitterText.lean.
 -/
 import PM.Monitor
 import Proofs.StepToks
